@@ -1344,6 +1344,60 @@ pub fn acyclic_segment<Ix: SIx>(ixname: &str, stable: bool, len: usize, rng: &mu
     d.apply(&json!({"op":"obs"}), log, rng);
 }
 
+/// C14: histories shaped to leave the wrapper's DFS scratch maps SMALLER than the graph: they are sized when the graph
+/// is wrapped (or at the last reorder); afterwards nodes are added and connected only by edges that already agree with
+/// the order (no reorder, no DFS), a low index is vacated (Graph: the last node moves into it; StableGraph: the next
+/// add_node reuses it) so that a low-index node sits late in the order, and only then edges against the order are
+/// tried - their cones must be walked across nodes the maps were never sized for.
+pub fn acyclic_stale_segment<Ix: SIx>(ixname: &str, stable: bool, rng: &mut Rng, log: &mut Log) {
+    let mut d: Driver<Ix> = Driver::new(ixname);
+    let ixmax = maxix::<Ix>();
+    d.apply(&json!({"op":"reset","kind": if stable {"stable"} else {"graph"},"directed":true,"ctor":"with_capacity"}), log, rng);
+    let n0 = 1 + rng.below(3.min(ixmax));
+    for _ in 0..n0 { d.apply(&json!({"op":"add_node"}), log, rng); }
+    if n0 >= 2 && rng.chance(1, 2) { d.apply(&json!({"op":"add_edge","a":0,"b":1}), log, rng); }
+    d.apply(&json!({"op":"ac_wrap","via": if rng.chance(1,2) {"try_from"} else {"try_from_graph"}}), log, rng);
+    if !d.is_acyclic_wrapped() { return; }
+    // possibly one reorder while the graph is still small
+    if n0 >= 2 && rng.chance(1, 2) {
+        let o = d.ac_order();
+        d.apply(&json!({"op":"ac_try_add_edge","a":o[o.len() - 1],"b":o[0]}), log, rng);
+    }
+    for round in 0..(1 + rng.below(3)) {
+        for _ in 0..(2 + rng.below(3)) {
+            if d.counts().0 < ixmax.min(8) { d.apply(&json!({"op":"ac_add_node"}), log, rng); }
+        }
+        // edges along the current order only
+        for _ in 0..(2 + rng.below(5)) {
+            let o = d.ac_order();
+            if o.len() < 2 || d.counts().1 >= ixmax.min(14) { break; }
+            let i = rng.below(o.len() - 1);
+            let j = i + 1 + rng.below(o.len() - 1 - i);
+            d.apply(&json!({"op": *rng.pick(&["ac_try_add_edge","ac_try_update_edge","ac_build_add_edge"]),"a":o[i],"b":o[j]}), log, rng);
+        }
+        // vacate a low index; the StableGraph reuses it for a new node that goes to the end of the order
+        let ln = d.live_nodes();
+        if ln.len() >= 2 && rng.chance(4, 5) {
+            let a = ln[rng.below(ln.len().min(1 + n0))];
+            if stable || d.degree(a) <= 5 { d.apply(&json!({"op":"ac_remove_node","a":a}), log, rng); }
+            if stable && rng.chance(3, 4) { d.apply(&json!({"op":"ac_add_node"}), log, rng); }
+        }
+        // now edges against the order, low indices first
+        for _ in 0..(1 + rng.below(3) + round) {
+            let o = d.ac_order();
+            if o.len() < 2 || d.counts().1 >= ixmax.min(14) { break; }
+            let mut lows: Vec<usize> = o.iter().cloned().filter(|&x| x < n0.max(2)).collect();
+            if lows.is_empty() || rng.chance(1, 4) { lows = o.clone(); }
+            let a = lows[rng.below(lows.len())];
+            let pa = o.iter().position(|&x| x == a).unwrap();
+            if pa == 0 { continue; }
+            let b = o[rng.below(pa)];
+            d.apply(&json!({"op": *rng.pick(&["ac_try_add_edge","ac_try_add_edge","ac_try_update_edge","ac_build_add_edge","ac_build_update_edge"]),"a":a,"b":b}), log, rng);
+        }
+        d.apply(&json!({"op":"obs"}), log, rng);
+    }
+}
+
 /// C17: histories that leave vacancies, then serde round trips (JSON / bincode, same type and across
 /// Graph <-> StableGraph), mutated streams, and further use of whatever came back.
 pub fn serde_segment<Ix: SIx>(ixname: &str, stable: bool, directed: bool, len: usize, rng: &mut Rng, log: &mut Log) {
@@ -1496,6 +1550,10 @@ pub fn gen_acyclic(seed: u64, segments: usize, len: usize, log: &mut Log) {
     let mut rng = Rng::new(seed ^ 0xac1c);
     for i in 0..segments {
         let stable = i % 2 == 1;
+        if i % 5 == 4 {
+            if i % 3 == 0 { acyclic_stale_segment::<Ix7>("ix7", stable, &mut rng, log) } else { acyclic_stale_segment::<u32>("u32", stable, &mut rng, log) }
+            continue;
+        }
         match i % 4 {
             0 | 1 => acyclic_segment::<u32>("u32", stable, len, &mut rng, log),
             2 => acyclic_segment::<Ix7>("ix7", stable, len, &mut rng, log),
